@@ -144,6 +144,32 @@ fn truncated(prog: &Program, j: usize, s: Option<usize>) -> Program {
     p
 }
 
+/// Where the XML section of the completed file ends, as logical offset modulo the page payload.
+fn xml_end_residue(prog: &Program) -> Option<u64> {
+    let ctx = new_ctx(vec![]);
+    let d = SimDisk::new(&ctx, DEV_DISK, Vec::new(), &Chunk::Full);
+    let e = exec_program(prog, &ctx, &d);
+    let img = d.image();
+    if !e.completed || img.len() < 48 {
+        return None;
+    }
+    let phys = u64::from_le_bytes(img[24..32].try_into().unwrap());
+    let len = u64::from_le_bytes(img[32..40].try_into().unwrap());
+    let logical = phys - (phys / 1024) * 4;
+    Some((logical + len) % 1020)
+}
+
+/// Choose the length of the coordinate metadata string so that the XML section ends `target`
+/// bytes behind a page payload boundary (0 = the XML fills its last page exactly).
+fn tune_xml_end(prog: &mut Program, target: u64) {
+    prog.calls.retain(|c| !matches!(c, Call::CoordMeta(_)));
+    prog.calls.insert(0, Call::CoordMeta(Some("x".into())));
+    if let Some(e1) = xml_end_residue(prog) {
+        let extra = (target + 1020 - e1) % 1020;
+        prog.calls[0] = Call::CoordMeta(Some("x".repeat(1 + extra as usize)));
+    }
+}
+
 fn run_case(case: &Case, st: &mut RunStats) -> Outcome<Case> {
     // 1. the completed file and its write log
     let ctx = new_ctx(vec![]);
@@ -383,6 +409,15 @@ fn run_case(case: &Case, st: &mut RunStats) -> Outcome<Case> {
     st.count("images_accepted", accepted_count);
     st.count("device_writes_in_log", writes.len() as u64);
     st.probe("short_write_schedule", case.wchunk != Chunk::Full);
+    {
+        let phys = u64::from_le_bytes(final_image[24..32].try_into().unwrap());
+        let len = u64::from_le_bytes(final_image[32..40].try_into().unwrap());
+        let end = (phys - (phys / 1024) * 4 + len) % 1020;
+        st.probe("xml_ends_exactly_at_page_boundary", end == 0);
+        st.probe("xml_ends_one_byte_behind_page_boundary", end == 1);
+        st.probe("metadata_only_file", writes_before_finalize == 0);
+        st.probe("transformer_changes_xml_length", matches!(case.prog.end, End::FinalizeXml(XmlScript::Append | XmlScript::Edit | XmlScript::Shorten)));
+    }
     st.digest = dg.finish();
     if st.sample.is_none() {
         st.sample = Some(json!({"calls": exec.calls.iter().take(10).map(|c| c.label.clone()).collect::<Vec<_>>(),
@@ -400,7 +435,7 @@ impl Prop for C15 {
     fn meta(&self) -> Meta {
         Meta {
             level: "fault_enumeration",
-            rule: "per run index one small seeded writer program (C01 generator, 0-4 items, knob on, <= 40 points, payloads <= 2.6 KiB) executed fault-free with the device write log recorded (full-page writes on even indices, seeded short writes on odd ones); then exhaustively per program: EVERY prefix k of the device writes x cut positions t in {1,16,24,25,32,33,34,40,47,48,511,512,1000,1019,1020,1021,1023 (+256,512,768 sector cuts in thorough)} of write k+1 (image(k,t) rebuilt from the log); 'run the first j calls (last one cut to its first s steps and abandoned), then drop everything' for every j, s; failing XML transformer; a hard device error at every device operation inside the top-level finalize (and ErrorKind::Interrupted at every seek and flush there); a device that still holds an older complete file when the writer is created (the writer must refuse it untouched, or no image may present the older file). Oracle per image: E57Reader::new fails, or the image lists the same point clouds and images as the completed file and every read operation (xml, listings, raw+simple iteration, all blobs) is Err or equals the completed file's result; every image whose last write precedes the start of the top-level finalize is rejected. Distinct = (program shape, crash point); every enumerated image counts as non-trivial".into(),
+            rule: "per run index one small seeded writer program (C01 generator, 0-4 items, knob on, <= 40 points, payloads <= 2.6 KiB) executed fault-free with the device write log recorded (full-page writes on even indices, seeded short writes on odd ones); every fourth program has the length of its coordinate metadata tuned so that the XML section ends exactly on, one or two bytes before or behind a page boundary, half of these hold metadata only; a quarter of the programs finalize through finalize_customized_xml with a transformer that keeps, edits, appends to or shortens the XML; then exhaustively per program: EVERY prefix k of the device writes x cut positions t in {1,16,24,25,32,33,34,40,47,48,511,512,1000,1019,1020,1021,1023 (+256,512,768 sector cuts in thorough)} of write k+1 (image(k,t) rebuilt from the log); 'run the first j calls (last one cut to its first s steps and abandoned), then drop everything' for every j, s; failing XML transformer; a hard device error at every device operation inside the top-level finalize (and ErrorKind::Interrupted at every seek and flush there); a device that still holds an older complete file when the writer is created (the writer must refuse it untouched, or no image may present the older file). Oracle per image: E57Reader::new fails, or the image lists the same point clouds and images as the completed file and every read operation (xml, listings, raw+simple iteration, all blobs) is Err or equals the completed file's result; every image whose last write precedes the start of the top-level finalize is rejected. Distinct = (program shape, crash point); every enumerated image counts as non-trivial".into(),
             assumptions: vec![
                 "writes reach the device in issue order (no reordering, no loss of earlier writes)".into(),
                 "a torn write leaves a byte prefix of the write on the device".into(),
@@ -417,6 +452,9 @@ impl Prop for C15 {
                 "torn_cut_inside_header_field_16_24".into(),
                 "torn_cut_inside_header_field_24_32".into(),
                 "torn_cut_inside_header_field_32_40".into(),
+                "xml_ends_exactly_at_page_boundary".into(),
+                "metadata_only_file".into(),
+                "transformer_changes_xml_length".into(),
             ],
         }
     }
@@ -440,7 +478,17 @@ impl Prop for C15 {
             small: true,
             big_permille: 0,
         };
-        let prog = gen_program(rc.run_seed, &cfg);
+        let mut prog = gen_program(rc.run_seed, &cfg);
+        if rc.index % 4 == 3 {
+            // the end of the XML section placed on, just before and just behind a page boundary;
+            // every second of these files holds metadata only (nothing reaches the device before
+            // the top-level finalize)
+            if rc.index % 8 == 7 {
+                prog.calls.retain(|c| !matches!(c, Call::Blob { .. } | Call::Pc { .. } | Call::Img { .. }));
+            }
+            let target = [0u64, 1, 1019, 2, 1018, 4, 0, 510][((rc.index / 4) % 8) as usize];
+            tune_xml_end(&mut prog, target);
+        }
         let mut c = Rng::stream(rc.run_seed, "chunk-dev");
         let wchunk = if rc.index % 2 == 0 { Chunk::Full } else { Chunk::Random { seed: c.next_u64(), short_permille: 150 } };
         let mut cuts: Vec<usize> = CUTS.to_vec();
